@@ -1677,6 +1677,7 @@ func runC04(o *Out, rng *RNG, tier string, replay string) {
 	}
 	c04Forced(o, 3)
 	c04Fixed(o, rng.Next(), tier, &budget)
+	c04MixedWriters(o, rng.Fork())
 	for i := 0; i < nStream; i++ {
 		c04RunStream(o, rng.Next(), tier, i)
 	}
